@@ -97,7 +97,7 @@ ROWS = {
  'C10': dict(
   text='Lean theorems for every device content, area size, offset, length and per-request limit >= 2: read_fru_data '
        'returns exactly the stored slice, the full read the whole area, every request names the caller\'s FRU id, '
-       'write stores the bytes contiguously and raises on a short acknowledgement; a write of which the first k bytes were stored before it failed, resumed from offset+k, leaves what one complete write stores (write_resumed_exact); all write theorems for every write_length 1..255 (write_*_any_chunk; the harness assigns ipmi.write_length: 8 named sizes + random, all in thorough) and an acknowledgement larger than the chunk raises; 18 theorems. The loops of fru.py are translated '
+       'write stores the bytes contiguously and raises on a short acknowledgement; a write of which the first k bytes were stored before it failed, resumed from offset+k, leaves what one complete write stores (write_resumed_exact); all write theorems for every write_length 1..255 (write_*_any_chunk; the harness assigns ipmi.write_length: 8 named sizes + random, all in thorough) and an acknowledgement larger than the chunk raises; write clause at full strength: for any peer and any chunk size the first deviating acknowledgement k ends the write with an exception after exactly k+1 requests whatever later acknowledgements would be (write_raises_at_first_count_mismatch, write_stops_at_first_bad_answer, write_all_acked_returns); 22 theorems. The loops of fru.py are translated '
        'from the AST on every run (Gen/Loops10.lean) and run against a Lean reference device.',
   note='translator harness/translate/loops10.py; reference device Spec/FruDevice.lean (rejects or serves short); area '
        'parsers are C15; differential run compares outcome, bytes, full request trace and final device state; history stream: every single case again as 2nd operation of one Ipmi object, directed and random sequences of 2..6 operations incl. refused reads and writes that fault at chunk k (Spec.Fru.respondF) and are resumed, each step judged against the contents at its start and compared with the stateless model',
@@ -118,15 +118,15 @@ ROWS = {
  'C12': dict(
   text='Lean theorems for every log, partial-read limit and script of concurrent changes: entries are returned exactly, '
        'once each, in order; an empty log gives nothing; get-and-clear returns the entry that was deleted, deletes '
-       'under the reservation of the read and repeats both steps when the reservation is cancelled in between.',
+       'under the reservation of the read and repeats both steps when the reservation is cancelled in between (get_and_clear_atomic for every budget without a fuel hypothesis; get_and_clear_repeats_both_steps: fewer changes than rounds and the record still present => success); the decoded SelEntry equals the view of IPMI tables 32-1..3 for system events (entry_view_system, entry_view_oem, entry_decoding_strict); 13 theorems.',
   note='translator harness/translate/loops10.py (sel.py loops); reference device Spec/SelDevice.lean; tie by '
-       'differential run (outcome, record bytes, request trace, final device state)',
+       'differential run (outcome, record bytes, request trace, final device state); every returned SelEntry judged attribute by attribute; one-object histories; variant (length floor, retry budget) read from the source and probed; OEM record attributes beyond data / id / type are not judged',
   tech='Lean 4 proof (refinement to the log as a list) + AST translator + differential correspondence against a reference device'),
  'C13': dict(
   text='Lean theorems for EVERY outcome sequence and budget: chunk fetching, repository clearing and send_message issue '
        'a bounded number of requests, use the most recent reservation, initiate before polling, report success iff '
        'the last status says complete, propagate unexpected codes, end in RetryError on exhaustion; send_message '
-       'repeats only after node busy; also above the chunk helper: for every transport, every Get (Device) SDR of a record read or a listing carries the id returned by the most recent Reserve of that store (the caller\'s before the first; fresh_reservation_data / _listing / _every_get, counter-example stale_after_renewal_as_shipped); <= 161 exchanges per record. Constants, loop tests and call sites are re-read from helper.py/__init__.py on '
+       'repeats only after node busy; also above the chunk helper: for every transport, every Get (Device) SDR of a record read or a listing carries the id returned by the most recent Reserve of that store (the caller\'s before the first; fresh_reservation_data / _listing / _every_get, counter-example stale_after_renewal_as_shipped); <= 161 exchanges per record; the two loops of pyipmi/sel.py: get_sel_entry <= 33 requests for any script and RetryError after 17 refusals, get_and_clear_sel_entry <= 35 requests per round within its budget (unbounded before fixes 8f8257b / 934f8f8: counter-example theorems sel_entry_unbounded_as_shipped, sel_get_and_clear_unbounded_as_shipped); a refused Reserve (first or renewal) is propagated and is the last call; source_variant equates the variants read from today\'s source with the intended ones; 37 theorems. Constants, loop tests and call sites are re-read from helper.py/__init__.py on '
        'every run.',
   note='translator harness/translate/loops11.py; Model/Retry.lean hand-written, tied by depth-first exploration of the '
        'outcome tree (depth 5/8, budgets 1..6) on the real helpers with scripted callables; time.sleep recorded; Model/SdrXfer.lean on a scripted byte-level device, renewed-id variant probed',
@@ -207,12 +207,12 @@ ROWS = {
        'command line through an argv-printing stub; ipmitool output format taken from its sources; histories of 2..4 calls on ONE Ipmitool object with credentials / host / privilege / session changed in between, each call judged against the argument vector its CURRENT settings demand (pristine child per history)',
   tech='Lean 4 proof (shell-quoting inertness by induction on the string; printer/parser inversion) + translator + correspondence through the real shell'),
  'C20': dict(
-  text='44 Lean theorems over the command table regenerated from pyipmi/ipmitool.py: every entry resolves to an existing '
+  text='51 Lean theorems over the command table regenerated from pyipmi/ipmitool.py: every entry resolves to an existing '
        'operation with an acceptable arity (kernel-decided over the whole generated table; table_is_intended: today\'s table IS the repaired one, so a regression of one entry stops the build), chassis power sub-commands '
        'map to distinct option codes, longest-prefix lookup is correct, getopt separates options as given, raw '
-       'sends/prints exactly; every class of pyipmi.errors and a socket time-out, raised by open, a request or close, ends main() with a message and status 1 (error_classes_complete, all_errors_exit_nonzero, main_reports_every_failure); numeric arguments are accepted in decimal and hex at every converting position; the printing handlers raise no Python error on a link-less channel, every SDR type of IPMI ch. 43, sensors flagged unavailable and raw values outside the domain of a non-linear function; as-shipped counter-example theorems for each. Tie: main() run in-process for every entry against the direct API '
+       'sends/prints exactly; every class of pyipmi.errors and a socket time-out, raised by open, a request or close, ends main() with a message and status 1 (error_classes_complete, all_errors_exit_nonzero, main_reports_every_failure); numeric arguments are accepted in decimal and hex at every converting position; the printing handlers raise no Python error on a link-less channel, every SDR type of IPMI ch. 43, sensors flagged unavailable and raw values outside the domain of a non-linear function; as-shipped counter-example theorems for each; the LUN argument of all six get_sensor_reading calls of sdr list/show/showall is read from the source and pinned (sensor_reads_today), sdr show of a full record addresses (owner LUN, number) for every record (sdr_show_full_reads_owner_lun). Tie: main() run in-process for every entry against the direct API '
        'call on an identical BMC stub.',
-  note='translator harness/translate/cli.py (also reads the except clauses and where close() sits, the classes of errors.py, every int(args[k][, 0]), the handler guards and caught classes, the SDR class table; the hypotheses exitsCover, closeInside, base10Args = [] and the handler guards are evaluated on today\'s source by the driver\'s probe on every run); getopt/int(s,0) modelled in Lean and tied to CPython by the run; stub BMC profiles full / minimal / plain / sdrtypes / nonlinear / unavailable with an HPM.1 upgrade agent; a traceback is not counted as a message; "completes '
+  note='translator harness/translate/cli.py (also reads the except clauses and where close() sits, the classes of errors.py, every int(args[k][, 0]), the handler guards and caught classes, the SDR class table; the hypotheses exitsCover, closeInside, base10Args = [] and the handler guards are evaluated on today\'s source by the driver\'s probe on every run); getopt/int(s,0) modelled in Lean and tied to CPython by the run; stub BMC profiles full / minimal / plain / sdrtypes / nonlinear / unavailable / luns (sensors on owner LUN 0/1/3, same number on two LUNs) with an HPM.1 upgrade agent; a traceback is not counted as a message; "completes '
        'without a Python error" is checked per entry on the stub profiles (a Python error on a fault-free run is a violation), not proved; histories of 2..4 consecutive main() runs in one process with every option given in one run and absent in the next: each run must equal the same run alone in a new process',
   tech='Lean 4 proof (decide +kernel over generated table; lookup/getopt lemmas) + translator + differential correspondence (CLI vs API)'),
  'C07': dict(
